@@ -819,3 +819,6 @@ def classify(c, o, failure, disagrees):
             and not disagrees and any(list(m[3]) != [0.0, 0.0, 0.0, 1.0] for m in c["ms"][:-1])):
         return "compose_non_affine"
     return None
+
+# added with seeded rounds 6-7 (DESIGN 8.6)
+RULE = RULE + '; euler also with the angles as a float64 array, twice through the same array (argument unchanged, same matrix)'
